@@ -62,20 +62,53 @@ def in_indexed_repeat(source: str, ref_index: int) -> bool:
     return False
 
 
+def indexed_repeat_arg(source: str, ref_index: int):
+    """index of the argument (of the innermost indexed-repeat call around it) that holds the ref_index-th ${...}, else None.
+    Parentheses/brackets are balanced and string literals skipped."""
+    ms = list(model.REF_RE.finditer(source))
+    pos = ms[ref_index].start()
+    best = None
+    for m in re.finditer(r"indexed-repeat\(", source):
+        depth, i, arg, quote, found = 1, m.end(), 0, None, None
+        while i < len(source) and depth:
+            ch = source[i]
+            if quote:
+                quote = None if ch == quote else quote
+            elif ch in "'\"":
+                quote = ch
+            elif ch in "([":
+                depth += 1
+            elif ch in ")]":
+                depth -= 1
+            elif ch == "," and depth == 1:
+                arg += 1
+            if i == pos:
+                found = arg
+            i += 1
+        if found is not None and m.end() <= pos < i and (best is None or m.start() > best[0]):
+            best = (m.start(), found)
+    return best[1] if best else None
+
+
 def in_instance_predicate(source: str, ref_index: int) -> bool:
     """is the ref inside [ ... ] of an expression that contains instance( ?"""
     if "instance(" not in source:
         return False
     ms = list(model.REF_RE.finditer(source))
     pos = ms[ref_index].start()
-    depth = 0
+    depth, quote = 0, None
     for ch in source[:pos]:
-        depth += ch == "["
-        depth -= ch == "]"
+        if quote:
+            quote = None if ch == quote else quote
+        elif ch in "'\"":
+            quote = ch
+        else:
+            depth += ch == "["
+            depth -= ch == "]"
     return depth > 0
 
 
-def check_token(token, inst, context_el, target_path, *, last_saved=False, must_relative=None, need_current=False):
+def check_token(token, inst, context_el, target_path, *, last_saved=False, must_relative=None, need_current=False, stay_within=None):
     """-> None if fine, else (tag, message).
     inst: template-free actual instance root; context_el: element of inst the cell belongs to (or None)."""
     t = token
@@ -101,9 +134,29 @@ def check_token(token, inst, context_el, target_path, *, last_saved=False, must_
     paths = sorted({xform.node_path(h) for h in hits})
     if paths != [target_path]:
         return "wrong-relative", f"{token!r} from {xform.node_path(context_el)} reaches {paths}, expected {target_path}"
+    if must_relative and stay_within is not None:
+        # "relative" means staying inside the current instance of the shared repeat: climbing above it and coming back down
+        # through the repeat's name reaches the node in every instance
+        rel = t[len("current()/"):] if t.startswith("current()/") else t
+        ups = 0
+        for step in rel.split("/"):
+            if step == "..":
+                ups += 1
+            elif step != ".":
+                break
+        if ups > stay_within:
+            return "leaves-repeat-instance", f"{token!r} from {xform.node_path(context_el)} climbs {ups} levels, above the shared repeat ({stay_within} levels up)"
     if need_current and not t.startswith("current()/"):
         return "missing-current", f"{token!r} inside a secondary-instance predicate must start with current()/"
     return None
+
+
+def levels_to_shared_repeat(referrer, target):
+    """how many '..' steps lead from the referrer to the target's innermost repeat when that repeat encloses the referrer, else None"""
+    rep = target.innermost_repeat()
+    if rep is None or not any(a is rep for a in referrer.ancestors()):
+        return None
+    return len(referrer.path.split("/")) - len(rep.path.split("/"))
 
 
 def must_be_relative(referrer, target) -> bool:
